@@ -4,6 +4,9 @@
 package certkeys
 
 import (
+	"bytes"
+	"crypto/aes"
+	"crypto/cipher"
 	"encoding/hex"
 	"encoding/pem"
 	"errors"
@@ -12,6 +15,7 @@ import (
 	"testing"
 
 	"github.com/slackhq/nebula/cert"
+	"golang.org/x/crypto/argon2"
 	"google.golang.org/protobuf/proto"
 	"verifharness/hlib"
 )
@@ -94,6 +98,95 @@ func unhex(s string) []byte {
 	return b
 }
 
+// ---- the format, implemented here a second time (x/crypto argon2 + crypto/cipher, protobuf written by hand) ------
+//
+// Nothing below calls into cert/crypto.go: it is what another implementation of the documented format
+// (Argon2id v0x13 over passphrase and the recorded salt / iterations / memory KiB / parallelism, 32-byte key,
+// AES-256-GCM, blob = 12-byte nonce ‖ ciphertext ‖ tag) does.
+
+type kdfParams struct {
+	mem, iter, par uint32
+	salt           []byte
+}
+
+func pbVarint(x uint64) []byte {
+	var b []byte
+	for x >= 0x80 {
+		b = append(b, byte(x)|0x80)
+		x >>= 7
+	}
+	return append(b, byte(x))
+}
+
+func pbUint(num int, v uint64) []byte {
+	if v == 0 {
+		return nil
+	}
+	return append(pbVarint(uint64(num)<<3), pbVarint(v)...)
+}
+
+func pbBytes(num int, v []byte) []byte {
+	if len(v) == 0 {
+		return nil
+	}
+	return append(append(pbVarint(uint64(num)<<3|2), pbVarint(uint64(len(v)))...), v...)
+}
+
+func indepKey(pass []byte, k kdfParams) []byte {
+	return argon2.IDKey(pass, k.salt, k.iter, k.mem, uint8(k.par), 32)
+}
+
+// indepSeal is the body of an encrypted-key PEM block for (pass, plain) under the given parameters and nonce.
+func indepSeal(pass, plain []byte, k kdfParams, nonce []byte) []byte {
+	blk, err := aes.NewCipher(indepKey(pass, k))
+	if err != nil {
+		panic(err)
+	}
+	gcm, err := cipher.NewGCM(blk)
+	if err != nil {
+		panic(err)
+	}
+	blob := append(append([]byte{}, nonce...), gcm.Seal(nil, nonce, plain, nil)...)
+	var argon []byte
+	argon = append(argon, pbUint(1, 0x13)...)
+	argon = append(argon, pbUint(2, uint64(k.mem))...)
+	argon = append(argon, pbUint(3, uint64(k.iter))...)
+	argon = append(argon, pbUint(4, uint64(k.par))...)
+	argon = append(argon, pbBytes(5, k.salt)...)
+	meta := append(pbBytes(1, []byte("AES-256-GCM")), pbBytes(2, argon)...)
+	return append(pbBytes(1, meta), pbBytes(2, blob)...)
+}
+
+// indepOpen: applicable=false when the body never reaches the AEAD in any implementation of the format (does
+// not parse, parameters outside their ranges, other algorithm / Argon2 version, short salt or blob).
+func indepOpen(pass, body []byte) (plain []byte, opened bool, applicable bool) {
+	var m cert.RawNebulaEncryptedData
+	if len(body) == 0 || proto.Unmarshal(body, &m) != nil || m.EncryptionMetadata == nil || m.EncryptionMetadata.Argon2Parameters == nil {
+		return nil, false, false
+	}
+	a := m.EncryptionMetadata.Argon2Parameters
+	if a.Memory == 0 || a.Parallelism == 0 || a.Parallelism > 255 || a.Iterations == 0 || a.Version != 0x13 || len(a.Salt) < 16 ||
+		m.EncryptionMetadata.EncryptionAlgorithm != "AES-256-GCM" || len(m.Ciphertext) <= 12 {
+		return nil, false, false
+	}
+	if a.Memory > 1<<16 || a.Iterations > 16 {
+		return nil, false, false // never generated; would only burn time
+	}
+	blk, err := aes.NewCipher(indepKey(pass, kdfParams{mem: a.Memory, iter: a.Iterations, par: a.Parallelism, salt: a.Salt}))
+	if err != nil {
+		panic(err)
+	}
+	gcm, _ := cipher.NewGCM(blk)
+	pl, err := gcm.Open(nil, m.Ciphertext[:12], m.Ciphertext[12:], nil)
+	if err != nil {
+		return nil, false, true
+	}
+	if pl == nil {
+		pl = []byte{}
+	}
+	return pl, true, true
+}
+
 func newExec(t *testing.T) func([]string) string {
 	return func(a []string) string {
 		switch a[0] {
@@ -140,7 +233,48 @@ func newExec(t *testing.T) func([]string) string {
 				return "nil"
 			}
 			return bhex(blk.Type)
+		case "enc":
+			// enc <curve> <pass> <key> <mem> <par> <iter>: the real encryption, opened by the second implementation
+			curve := cert.Curve(hlib.Atoi(a[1]))
+			mem, par, iter := uint32(hlib.Atoi(a[4])), uint8(hlib.Atoi(a[5])), uint32(hlib.Atoi(a[6]))
+			p, err := cert.EncryptAndMarshalSigningPrivateKey(curve, unhex(a[3]), unhex(a[2]), cert.NewArgon2Parameters(mem, par, iter))
+			if err != nil {
+				if strings.HasPrefix(err.Error(), "invalid curve") {
+					return "err:curve"
+				}
+				return "err:other:" + strings.ReplaceAll(err.Error(), " ", "_")
+			}
+			blk, rest := pem.Decode(p)
+			if blk == nil || len(rest) != 0 {
+				return "err:pem"
+			}
+			bc := -1
+			switch blk.Type {
+			case cert.EncryptedEd25519PrivateKeyBanner:
+				bc = 0
+			case cert.EncryptedECDSAP256PrivateKeyBanner:
+				bc = 1
+			}
+			var m cert.RawNebulaEncryptedData
+			if err := proto.Unmarshal(blk.Bytes, &m); err != nil || m.EncryptionMetadata == nil || m.EncryptionMetadata.Argon2Parameters == nil {
+				return "err:proto"
+			}
+			ap := m.EncryptionMetadata.Argon2Parameters
+			pl, opened, app := indepOpen(unhex(a[2]), blk.Bytes)
+			if !app {
+				return "err:indep-not-applicable"
+			}
+			if !opened {
+				return fmt.Sprintf("err:indep-open %d %d %d %d", ap.Memory, ap.Parallelism, ap.Iterations, len(ap.Salt))
+			}
+			return fmt.Sprintf("ok %d %s %d %d %d %d", bc, hlib.Hex(pl), ap.Memory, ap.Parallelism, ap.Iterations, len(ap.Salt))
 		case "dec":
+			// the AEAD bits of the op must be what the second implementation observes
+			if pl, opened, app := indepOpen(unhex(a[2]), unhex(a[3])); app {
+				if hlib.B(opened) != a[4] || (opened && !bytes.Equal(pl, unhex(a[5]))) {
+					return "op-inconsistent"
+				}
+			}
 			p := pem.EncodeToMemory(&pem.Block{Type: unbanner(a[1]), Bytes: unhex(a[3])})
 			curve, key, _, err := cert.DecryptAndUnmarshalSigningPrivateKey(unhex(a[2]), p)
 			if err != nil {
@@ -168,6 +302,33 @@ func gen(r *hlib.Rand, n int, tier, profile string, emit func(string, ...any)) {
 			emit("mkey %s %d", fn, c)
 		}
 	}
+	bannerFor := func(c cert.Curve) string {
+		if c == cert.Curve_P256 {
+			return cert.EncryptedECDSAP256PrivateKeyBanner
+		}
+		return cert.EncryptedEd25519PrivateKeyBanner
+	}
+	// aead / plain are what the second implementation observes for (pass, body); the executor re-validates them
+	emitDec := func(banner string, pass, body, key []byte, kind string) {
+		aead, plain := "0", key
+		if pl, opened, app := indepOpen(pass, body); app && opened {
+			aead, plain = "1", pl
+		}
+		emit("dec %s %s %s %s %s %s %s", bhex(banner), hlib.Hex(pass), hlib.Hex(body), aead, hlib.Hex(plain), kind, hlib.Hex(key))
+	}
+	// known answers: blobs written by the second implementation with every small memory / lane combination (memory
+	// below, at and above 8 x lanes — Argon2 hashes the *recorded* memory into H0 before it rounds it up)
+	for _, par := range []uint32{1, 2, 3, 4} {
+		for _, mem := range []uint32{1, 2, 7, 8, 9, 8*par - 1, 8 * par, 8*par + 1, 4 * par, 64} {
+			curve := cert.Curve(r.Intn(2))
+			key := r.Bytes(64 - 32*int(curve))
+			pass := r.Bytes(hlib.Pick(r, 0, 1, 8))
+			k := kdfParams{mem: mem, iter: uint32(hlib.Pick(r, 1, 2)), par: par, salt: r.Bytes(hlib.Pick(r, 16, 32))}
+			emitDec(bannerFor(curve), pass, indepSeal(pass, key, k, r.Bytes(12)), key, "orig")
+			emit("enc %d %s %s %d %d %d", curve, hlib.Hex(pass), hlib.Hex(key), mem, par, k.iter)
+		}
+	}
+	emit("enc 2 - 00 8 1 1")
 	for i := 0; i < n; i++ {
 		curve := cert.Curve(r.Intn(2))
 		keyLen := 64
@@ -179,20 +340,33 @@ func gen(r *hlib.Rand, n int, tier, profile string, emit func(string, ...any)) {
 		}
 		key := r.Bytes(keyLen)
 		pass := r.Bytes(hlib.Pick(r, 0, 1, 8, 20))
-		mem, par, iter := uint32(hlib.Pick(r, 8, 16, 64)), uint8(hlib.Pick(r, 1, 1, 2)), uint32(hlib.Pick(r, 1, 1, 2))
-		p, err := cert.EncryptAndMarshalSigningPrivateKey(curve, key, pass, cert.NewArgon2Parameters(mem, par, iter))
-		if err != nil {
-			continue
+		if r.Chance(1, 4) {
+			pass = []byte(hlib.Pick(r, "Passw0rd", "pass word ", " x", "x\n", "caf\xc3\xa9", "\x00", "a\x00b"))
 		}
-		blk, _ := pem.Decode(p)
-		body := blk.Bytes
-		banner := blk.Type
+		par := uint8(hlib.Pick(r, 1, 1, 2, 3, 4))
+		mem := uint32(hlib.Pick(r, 8, 16, 64, 1, 2, 4, 7, 9, 15, 17, 31, 32, 33, 8*int(par), 8*int(par)-1, 8*int(par)+1))
+		iter := uint32(hlib.Pick(r, 1, 1, 2, 3))
+		var body []byte
+		banner := bannerFor(curve)
+		if r.Bool() {
+			p, err := cert.EncryptAndMarshalSigningPrivateKey(curve, key, pass, cert.NewArgon2Parameters(mem, par, iter))
+			if err != nil {
+				continue
+			}
+			blk, _ := pem.Decode(p)
+			body, banner = blk.Bytes, blk.Type
+		} else {
+			body = indepSeal(pass, key, kdfParams{mem: mem, iter: iter, par: uint32(par), salt: r.Bytes(hlib.Pick(r, 16, 17, 32, 33))}, r.Bytes(12))
+		}
 		validLen := (curve == cert.Curve_P256 && keyLen == 32) || (curve == cert.Curve_CURVE25519 && keyLen == 64)
 		origKind := "orig"
 		if !validLen {
 			origKind = "crafted" // not a signing key of that curve: encryption does not look, decryption refuses the length
 		}
-		emit("dec %s %s %s 1 %s %s %s", bhex(banner), hlib.Hex(pass), hlib.Hex(body), hlib.Hex(key), origKind, hlib.Hex(key))
+		emitDec(banner, pass, body, key, origKind)
+		if r.Chance(1, 4) {
+			emit("enc %d %s %s %d %d %d", curve, hlib.Hex(pass), hlib.Hex(key), mem, par, iter)
+		}
 		var m cert.RawNebulaEncryptedData
 		if err := proto.Unmarshal(body, &m); err != nil {
 			panic(err)
@@ -204,15 +378,77 @@ func gen(r *hlib.Rand, n int, tier, profile string, emit func(string, ...any)) {
 			}
 			return b
 		}
+		// one KDF parameter (or the nonce) altered, everything else as it was: must be refused — no other value of a
+		// parameter derives the same key
+		if validLen && r.Chance(1, 2) {
+			alter := func(f func(a *cert.RawNebulaArgon2Parameters)) {
+				proto.Unmarshal(body, &m)
+				f(m.EncryptionMetadata.Argon2Parameters)
+				emitDec(banner, pass, remarshal(), key, "kdfparam")
+			}
+			mems := []uint32{8 * uint32(par), 8*uint32(par) - 1, 8*uint32(par) + 1, 1, mem + 1, mem - 1, 2 * mem, 1 + uint32(r.Intn(8*int(par)+2)),
+				1 + uint32(r.Intn(8*int(par)+2)), mem + 8, mem ^ 1<<uint(r.Intn(7))}
+			for _, v := range mems {
+				if v != mem && v != 0 && r.Chance(1, 2) {
+					v := v
+					alter(func(a *cert.RawNebulaArgon2Parameters) { a.Memory = v })
+				}
+			}
+			for _, v := range []uint32{iter + 1, iter - 1} {
+				if v != 0 && r.Chance(1, 3) {
+					v := v
+					alter(func(a *cert.RawNebulaArgon2Parameters) { a.Iterations = v })
+				}
+			}
+			for _, v := range []uint32{uint32(par) + 1, uint32(par) - 1, 2 * uint32(par)} {
+				if v != 0 && r.Chance(1, 3) {
+					v := v
+					alter(func(a *cert.RawNebulaArgon2Parameters) { a.Parallelism = v })
+				}
+			}
+			if r.Chance(1, 2) {
+				alter(func(a *cert.RawNebulaArgon2Parameters) { a.Salt[r.Intn(len(a.Salt))] ^= 1 << uint(r.Intn(8)) })
+			}
+			if r.Chance(1, 4) {
+				alter(func(a *cert.RawNebulaArgon2Parameters) { a.Salt = append(a.Salt, 0) })
+			}
+			if r.Chance(1, 4) {
+				alter(func(a *cert.RawNebulaArgon2Parameters) {
+					if len(a.Salt) > 16 {
+						a.Salt = a.Salt[:len(a.Salt)-1]
+					} else {
+						a.Salt = append([]byte{0}, a.Salt...)
+					}
+				})
+			}
+			if r.Chance(1, 2) { // nonce
+				proto.Unmarshal(body, &m)
+				m.Ciphertext[r.Intn(12)] ^= 1 << uint(r.Intn(8))
+				emitDec(banner, pass, remarshal(), key, "kdfparam")
+			}
+		}
 		for k, kk := 0, hlib.Pick(r, 1, 2, 3); k < kk; k++ {
 			proto.Unmarshal(body, &m)
 			a := m.EncryptionMetadata.Argon2Parameters
-			kind, aead := "tampered", "0"
+			kind := "tampered"
 			usePass, useBanner, useBody := pass, banner, []byte(nil)
 			switch r.Intn(20) {
 			case 0, 1:
 				kind = "wrongpass"
-				usePass = append(append([]byte{}, pass...), 1)
+				usePass = append(append([]byte{}, pass...), hlib.Pick(r, byte(1), 0, ' ', '\n', '\r', '\t'))
+				if len(pass) > 0 && r.Chance(1, 4) {
+					usePass = append([]byte{}, pass[:len(pass)-1]...) // a prefix
+				} else if len(pass) > 0 && r.Chance(1, 4) {
+					usePass = append([]byte{hlib.Pick(r, byte(' '), '\n', 0)}, pass...)
+				} else if len(pass) > 0 && r.Chance(1, 4) {
+					usePass = bytes.ToUpper(pass)
+					if bytes.Equal(usePass, pass) {
+						usePass = bytes.ToLower(pass)
+					}
+					if bytes.Equal(usePass, pass) {
+						usePass = append(append([]byte{}, pass...), pass...)
+					}
+				}
 				if r.Bool() && len(pass) > 0 {
 					usePass = append([]byte{}, pass...)
 					usePass[r.Intn(len(usePass))] ^= 1 << uint(r.Intn(8))
@@ -225,7 +461,7 @@ func gen(r *hlib.Rand, n int, tier, profile string, emit func(string, ...any)) {
 			case 4:
 				a.Memory = hlib.Pick(r, uint32(0), mem+8, 9)
 			case 5:
-				a.Parallelism = hlib.Pick(r, uint32(0), 256, 1000, uint32(par)+1)
+				a.Parallelism = hlib.Pick(r, uint32(0), 256, 1000, 257, uint32(par)+256)
 			case 6:
 				a.Iterations = hlib.Pick(r, uint32(0), iter+1)
 			case 7:
@@ -250,20 +486,15 @@ func gen(r *hlib.Rand, n int, tier, profile string, emit func(string, ...any)) {
 				} else {
 					useBanner = cert.EncryptedECDSAP256PrivateKeyBanner
 				}
-				kind, aead = "crafted", "1"
+				kind = "crafted"
 			case 14:
 				useBanner = hlib.Pick(r, banners...)
 				kind = "crafted"
-				if useBanner == cert.EncryptedEd25519PrivateKeyBanner || useBanner == cert.EncryptedECDSAP256PrivateKeyBanner {
-					aead = "1"
-				}
 			case 15: // unknown protobuf field appended: not covered by the AEAD, changes nothing
 				useBody = append(append([]byte{}, body...), 0x98, 0x06, 0x01)
-				kind, aead = "tampered", "1"
 			case 16:
 				useBody = append(append([]byte{}, body...), byte(r.Intn(256)))
 				kind = "crafted"
-				aead = "1"
 			case 17:
 				useBody = body[:r.Intn(len(body))]
 				kind = "crafted"
@@ -276,7 +507,7 @@ func gen(r *hlib.Rand, n int, tier, profile string, emit func(string, ...any)) {
 			if useBody == nil {
 				useBody = remarshal()
 			}
-			emit("dec %s %s %s %s %s %s %s", bhex(useBanner), hlib.Hex(usePass), hlib.Hex(useBody), aead, hlib.Hex(key), kind, hlib.Hex(key))
+			emitDec(useBanner, usePass, useBody, key, kind)
 		}
 	}
 }
